@@ -9,6 +9,17 @@ NOTE = ("Trusted: Lean 4.33.0 kernel (axioms per theorem audited: propext, Class
         "Model is tied to /repo by extraction+`decide` (finite tables, exhaustive) and by differential suites (everything else).")
 
 CLAIMED = {
+    'C16': dict(
+        text="Lean theorems over labelled transition systems of SocketConnection (datagram, seqpacket and byte-stream sockets) and QueueConnection: an invariant over arbitrary action "
+             "sequences (= every interleaving of peer writes, peer disconnect, receiver-thread iterations with any kernel chunking, faults in the loop, reads with both exception flags, "
+             "flushes, sends, close idle or racing an iteration, reopen) gives: frames returned by wait_frame are a subsequence in order of the frames sent (cut to the buffer size / MTU), "
+             "exactly the frames sent when nothing was flushed and everything was consumed, byte-stream concatenation is a prefix of the bytes sent, nothing is queued at end of stream, a "
+             "closed connection raises without blocking, close() ends the receiver thread, a wait gives up only on an empty queue and maps to TimeoutException / None by the flag. Tied by "
+             "deterministic forcing of interleavings on the real class (scripted socket + selector gate the receiver thread) compared action by action with the model, plus real socketpair "
+             "stress. Partial: thread safety of queue.Queue, select/recv/join semantics and timer accuracy are assumed.",
+        design_ref='DESIGN.md §3 C16',
+        technique='Lean 4 proof (invariant by induction over arbitrary action sequences) + deterministic-interleaving differential suite on the real classes + real-socket property checks',
+        note=NOTE + ' Partial: the atomicity of queue.Queue operations, the behaviour of select/recv/Thread.join and the accuracy of Queue.get(timeout) are assumptions of the model, not theorems.'),
     'C17': dict(
         text="Lean theorems (request/response round trips for all services, codes, data; re-encode; totality; id uniqueness) over a "
              "line-faithful model of Request.py/Response.py; model tied to /repo by kernel-checked equality with extracted tables and an "
